@@ -28,7 +28,7 @@ var prodStored = [][]string{
 }
 
 var prodReq = []string{"", "no-cache", "max-age=0", "max-age=5", "max-age=100", "max-stale", "max-stale=5", "min-fresh=5", "only-if-cached",
-	"only-if-cached, no-cache", "only-if-cached, max-stale", "max-age=5, max-stale=10", "no-cache, max-stale", "only-if-cached, max-age=0", "stale-if-error=30", "only-if-cached, min-fresh=5"}
+	"only-if-cached, no-cache", "only-if-cached, max-stale", "max-age=5, max-stale=10", "no-cache, max-stale", "only-if-cached, max-age=0", "stale-if-error=30", "only-if-cached, min-fresh=5", "max-age=0, stale-if-error=30", "max-age=5, stale-if-error=30"}
 var prodValidators = []string{"none", "etag", "lm", "both"}
 var prodAges = []string{"fresh", "just-stale", "long-stale"}
 var prodAnswers = []string{"304", "304+", "200", "404", "500", "503", "err"}
